@@ -474,6 +474,13 @@ func (s *InMemoryStore) DeleteTopic(ctx context.Context, name string) error {
 			delete(s.offsets, key)
 		}
 	}
+	// Like the etcd store, drop the consumer offsets committed for the topic.
+	for key := range s.consumerOffsets {
+		if _, topic, _, ok := parseConsumerKey(key); ok && topic == name {
+			delete(s.consumerOffsets, key)
+			delete(s.consumerMeta, key)
+		}
+	}
 	return nil
 }
 
